@@ -21,6 +21,8 @@ def session(job):
             return [[int(v) for v in r] for r in x]
         if kind == "int":
             return np.array([[int(v) for v in r] for r in x], dtype=np.int64).reshape(-1, 2)
+        if kind in ("uint8", "int8", "uint16", "int16", "int32", "uint32"):      # narrow / unsigned integer dtypes (image grey levels, counters)
+            return np.array([[int(v) for v in r] for r in x], dtype=kind).reshape(-1, 2)
         if kind == "float32":
             return np.array(x, dtype=np.float32).reshape(-1, 2)
         return np.array(x, dtype=float).reshape(-1, 2)
